@@ -35,6 +35,10 @@ class ExecCall(ExecExpr):
                 isinstance(node.args[0], (ast.GeneratorExp, ast.ListComp)):
             yield from self.any_all(f.id, node.args[0], st)
             return
+        if isinstance(f, ast.Subscript) and isinstance(f.value, ast.Name) and f.value.id not in st.env and self.w.has_cls(f.value.id):
+            # Generic[T] class subscripted in a constructor call, e.g. Operation[IQubitID](...): the parameter is erased at run time
+            node = ast.copy_location(ast.Call(func=f.value, args=node.args, keywords=node.keywords), node)
+            f = node.func
         if any(isinstance(a, ast.Starred) for a in node.args):
             raise EngineError("star arguments")
         star_kw = [k for k in node.keywords if k.arg is None]
